@@ -237,12 +237,12 @@ func synthBody(r *rng, payloads []payloadTy, varForm bool) (string, []stmtIntent
 // ---- observation (child process) ----
 
 type endpointObs struct {
-	URL, Method, Name string
-	Input, Return     string // type strings ("" = none)
-	IsBlob            bool
-	Query             []qparam
-	FormValues        []string
-	File              string
+	URL, Method, Name  string
+	Input, Return      string // type strings ("" = none)
+	IsBlob             bool
+	Query              []qparam
+	FormValues         []string
+	File               string
 	JSONName, JSONType string
 }
 
